@@ -19,6 +19,7 @@ mod g_pool;
 mod g_hb;
 mod g_socks;
 mod g_hostile;
+mod g_cert;
 mod e2e;
 
 use std::io::Write;
@@ -49,6 +50,7 @@ fn group_by_name(name: &str) -> Option<Box<dyn Group>> {
         "hb" => Some(Box::new(g_hb::HbGroup)),
         "socks" => Some(Box::new(g_socks::SocksGroup)),
         "hx" => Some(Box::new(g_hostile::HostileGroup)),
+        "cert" => Some(Box::new(g_cert::CertGroup)),
         _ => None,
     }
 }
